@@ -519,6 +519,42 @@ def V1c.tasks {M O} : Nat → V1c M O → Nat → V1c M O
 def V1c.taskDone {M O} (st : V1c M O) (i : Nat) : Bool :=
   st.finished.contains i || (match st.base.fwds[i]? with | some f => f.ended | none => false)
 
+/-! ### the default port's `send` is two steps
+
+`if self.tx.receiver_count() > 0 { let _ = self.tx.send(Some(msg)); }` — on a multi-threaded
+runtime other threads may subscribe, end a forwarding task or publish between the check and
+the store. `tx.send` itself stores nothing when there is no receiver at THAT moment. So a
+publisher that saw no receiver is done at the check (its publication is dropped there), one
+that saw a receiver performs an ordinary `publish` later, at its store point. -/
+
+/-- a port with publishers in flight (past the `receiver_count()` check, before `tx.send`) -/
+structure V1t (M O : Type) where
+  base : V1c M O := {}
+  /-- the messages of the publishers parked between check and store -/
+  pending : List M := []
+
+def V1t.init (M O : Type) (cap : Nat) : V1t M O := { base := V1c.init M O cap }
+
+inductive Op1t (M O : Type) where
+  | op (o : Op1c M O)
+  /-- a publisher evaluates `receiver_count() > 0` -/
+  | pubCheck (m : M)
+  /-- the `i`-th publisher in flight performs `tx.send` -/
+  | pubStore (i : Nat)
+
+def V1t.step {M O} (st : V1t M O) : Op1t M O → V1t M O
+  | .op o => { st with base := st.base.step o }
+  | .pubCheck m =>
+    if st.base.closed then st
+    else if st.base.base.hasReceiver then { st with pending := st.pending ++ [m] }
+    else { st with base := st.base.step (.op (.publish m)) }     -- dropped, here and now
+  | .pubStore i =>
+    match st.pending[i]? with
+    | none => st
+    | some m => { base := st.base.step (.op (.publish m)), pending := st.pending.eraseIdx i }
+
+def V1t.run {M O} (st : V1t M O) (ops : List (Op1t M O)) : V1t M O := ops.foldl V1t.step st
+
 /-! ### one `grant` of the engine = the task runs until it parks or returns; a converter call
 may act on the port re-entrantly (`re`): publish on it, or drop it — the operation lands
 between two sends of the same poll -/
